@@ -108,6 +108,10 @@ def exec_monitor(run):
                     if o in owner:
                         yield f'tick {t}: operator {o} belongs to live containers {owner[o]} and {c["cid"]}'
                     owner[o] = c['cid']
+                    if e['states'][o] not in (A, R, S):
+                        # an operator held by a live container that is PENDING or FAILED can be handed out again
+                        yield (f'tick {t}: operator {o} is {OST[e["states"][o]].value} while live container {c["cid"]} still '
+                               f'holds it (it can be assigned to a second container)')
         for i, x in enumerate(e['states']):
             if x in (A, R, S) and i not in owner:
                 yield f'tick {t}: operator {i} is {OST[x].value} but belongs to no live container'
@@ -206,7 +210,9 @@ def run(ctx):
         ('G-exec', 150, 3000, dict(p_bad=0.5)),
         ('G-exec-reassign', 80, 1500, dict(p_bad=1.0, bad_kinds=['asg-busy', 'asg-busy', 'asg-order', 'asg-parent'])),
         ('G-exec-twins', 30, 500, dict(twins=True)),
-        ('G-exec-overlap', 30, 500, dict(overlap=True))])
+        ('G-exec-overlap', 30, 500, dict(overlap=True)),
+        ('G-exec-inflight', 80, 1500, dict(p_inflight=0.9, p_bad=0.0)),
+        ('G-exec-inflight-over', 60, 1000, dict(p_inflight=0.9, p_bad=0.0, overcommit=True))])
     cases += ex['cases']
     hits += ex['hits']
     dist['executor'] = ex['dist']
